@@ -66,6 +66,13 @@ type palsCase struct {
 	// run on the forward strand (results discarded), then re-optimised for the settings proper.
 	PriorMinHit int `json:"prior_min_hit,omitempty"`
 	PriorMinID  int `json:"prior_min_id_pct,omitempty"`
+	// AtThr > 0: the planted copy differs from the original in floor((1-minId)*L) + AtThr - 2
+	// substitutions, i.e. its identity sits just below, at or just above the threshold. Nothing is
+	// claimed about finding it; every hit that is returned must still satisfy the error bound.
+	AtThr int `json:"at_threshold,omitempty"`
+	// Refused: between BuildIndex and Align the aligner is asked for settings Optimise refuses
+	// (minimum hit length 20, identity 0.5); a refused call changes nothing.
+	Refused bool `json:"refused_optimise,omitempty"`
 	// Family: the query carries a second, exact copy of the (mutated) repeat further along: a repeat
 	// family. Both query copies must be recovered against the one target copy (ordinary comparison only).
 	Family bool `json:"family,omitempty"`
@@ -170,6 +177,12 @@ func (c palsCase) build() built {
 	// differences: identity 60% of the way from the threshold to 1
 	rate := 0.4 * (1 - b.minID)
 	nd := int(rate * float64(L))
+	if c.AtThr > 0 {
+		nd = int((1-b.minID)*float64(L)) + c.AtThr - 2
+		if nd < 0 {
+			nd = 0
+		}
+	}
 	g := lcg(c.SeedM)
 	copyU := append([]byte(nil), unit...)
 	used := map[int]bool{}
@@ -339,6 +352,20 @@ func check(c palsCase) *vlib.Failure {
 	if err := p.BuildIndex(); err != nil {
 		return vlib.Failf("build-index", "%s: %v", desc, err)
 	}
+	if c.Refused {
+		if err := p.Optimise(20, 0.5); err == nil {
+			// accepted after all: then these are new settings; go back to the ones under test
+			if err := p.Optimise(c.MinHit, b.minID); err != nil {
+				return vlib.Failf("optimise", "%s: %v", desc, err)
+			}
+			if err := p.BuildIndex(); err != nil {
+				return vlib.Failf("build-index", "%s: %v", desc, err)
+			}
+		} else {
+			vlib.Count("optimise-refused-then-align", 1)
+			desc += " [after a refused Optimise(20, 0.5)]"
+		}
+	}
 	strands := []bool{false, true}
 	found := false
 	for _, comp := range strands {
@@ -361,7 +388,7 @@ func check(c palsCase) *vlib.Failure {
 			}
 			return f
 		}
-		if comp == c.Reverse && c.NetDel == 0 && !c.LowID {
+		if comp == c.Reverse && c.NetDel == 0 && !c.LowID && c.AtThr == 0 {
 			for _, h := range hits {
 				_ = h
 			}
@@ -484,6 +511,11 @@ func gen(t *rapid.T) palsCase {
 	if !c.Self && rapid.IntRange(0, 4).Draw(t, "family") == 0 {
 		c.Family = true
 	}
+	if c.NearMin == 0 && c.NetDel == 0 && rapid.IntRange(0, 7).Draw(t, "identity-at-threshold") == 5 {
+		c.AtThr = rapid.IntRange(1, 4).Draw(t, "at-threshold")
+		c.Indels = 0
+	}
+	c.Refused = rapid.IntRange(0, 5).Draw(t, "refused-optimise") == 2
 	if rapid.IntRange(0, 5).Draw(t, "aligner-used-before") == 3 {
 		c.PriorMinHit = rapid.IntRange(100, 400).Draw(t, "prior-min-hit")
 		c.PriorMinID = rapid.IntRange(85, 95).Draw(t, "prior-min-id")
@@ -529,6 +561,12 @@ func classes(c palsCase) []string {
 	}
 	if c.PriorMinHit > 0 {
 		l = append(l, "aligner-re-optimised-after-an-earlier-use")
+	}
+	if c.AtThr > 0 {
+		l = append(l, "identity-at-the-threshold")
+	}
+	if c.Refused {
+		l = append(l, "refused-optimise-before-align")
 	}
 	return l
 }
